@@ -556,7 +556,7 @@ theorem mkRoot_fields (rid : Nat) (cs : CS) (series scalar : Bool) (T : Nat) (ti
     (date : List (Option Int)) (root : Img) (h : mkRoot rid cs series scalar T time date = .ok root) :
     root = ⟨cs, series, scalar, (List.range T).map fun t => ⟨rid, t, cs.shape.map List.range⟩, root.time, date,
             date.headD none⟩ := by
-  unfold mkRoot at h
+  unfold mkRoot mkRootR at h
   cases time with
   | some l =>
     simp only [bind, Except.bind, pure, Except.pure] at h
@@ -616,7 +616,7 @@ theorem append_rel (im other : Img) (hcs : other.cs = im.cs) (hsc : other.scalar
     im.append other none = .ok { im with series := true, slabs := im.slabs ++ other.slabs,
                                           time := im.time ++ other.time, date := im.date ++ other.date } := by
   unfold Img.append appendChecks appendTimes
-  simp [hcs, hsc, hd, ht, ht', bind, Except.bind, pure, Except.pure, map_add_zero]
+  simp [hcs, hsc, hd, ht, ht', bind, Except.bind, pure, Except.pure, map_add_zero, allcloseL_refl npClose npClose_refl]
 
 /-- `stack` of images carrying relative times only: slabs, times and dates are concatenated -/
 theorem stack_rel (rest : List Img) : ∀ (im : Img), anyNone im.date = true → anyNone im.time = false →
@@ -662,19 +662,19 @@ theorem append_dates (im other : Img) (hcs : other.cs = im.cs) (hsc : other.scal
   have hdd : anyNone (im.date ++ other.date) = false := by rw [anyNone_append, hd, hd']; rfl
   unfold Img.append appendChecks appendTimes appended relDates
   cases h1 : im.date.getLast? with
-  | none => simp [hcs, hsc, hd, hd', ht, ht', bind, Except.bind, pure, Except.pure, timesFromDates, hdd, href]
+  | none => simp [hcs, hsc, hd, hd', ht, ht', bind, Except.bind, pure, Except.pure, timesFromDates, hdd, href, allcloseL_refl npClose npClose_refl]
   | some x =>
     cases x with
-    | none => simp [hcs, hsc, hd, hd', ht, ht', bind, Except.bind, pure, Except.pure, timesFromDates, hdd, href]
+    | none => simp [hcs, hsc, hd, hd', ht, ht', bind, Except.bind, pure, Except.pure, timesFromDates, hdd, href, allcloseL_refl npClose npClose_refl]
     | some a =>
       cases h2 : other.date.head? with
-      | none => simp [hcs, hsc, hd, hd', ht, ht', bind, Except.bind, pure, Except.pure, timesFromDates, hdd, href]
+      | none => simp [hcs, hsc, hd, hd', ht, ht', bind, Except.bind, pure, Except.pure, timesFromDates, hdd, href, allcloseL_refl npClose npClose_refl]
       | some y =>
         cases y with
-        | none => simp [hcs, hsc, hd, hd', ht, ht', bind, Except.bind, pure, Except.pure, timesFromDates, hdd, href]
+        | none => simp [hcs, hsc, hd, hd', ht, ht', bind, Except.bind, pure, Except.pure, timesFromDates, hdd, href, allcloseL_refl npClose npClose_refl]
         | some b =>
           have := hord a b h1 h2
-          simp [hcs, hsc, hd, hd', ht, ht', bind, Except.bind, pure, Except.pure, timesFromDates, hdd, href, this]
+          simp [hcs, hsc, hd, hd', ht, ht', bind, Except.bind, pure, Except.pure, timesFromDates, hdd, href, this, allcloseL_refl npClose npClose_refl]
 
 /-- a single-time image with a date (constructed with `date=d`: reference date `d`, relative time 0) -/
 def dated (cs : CS) (scalar : Bool) (x : Slab × Int) : Img :=
@@ -954,5 +954,146 @@ theorem subSlices_placed (im sub : Img) (hcs : im.cs.ok) (sls : List PySlice)
     have hp' : p < ns.length := by rw [hnsLen]; exact hp
     exact subSpec_h im ns am p hp' (by
       apply hlt; unfold listGetD; rw [List.getElem?_eq_getElem hp']; exact List.getElem_mem hp')
+
+/-! ### stack of dated images, general stored times and reference dates -/
+/-- a single-time image with date `d`, stored relative time `t` (any) and reference date `rf` (any):
+`x = (slab, d, t, rf)` -/
+def datedG (cs : CS) (scalar : Bool) (x : Slab × Int × Rat × Int) : Img :=
+  ⟨cs, false, scalar, [x.1], [some x.2.2.1], [some x.2.1], some x.2.2.2⟩
+
+theorem stack_datesG_aux (cs : CS) (scalar : Bool) (xs : List (Slab × Int × Rat × Int)) :
+    ∀ (acc : Img) (ds : List Int) (r : Int), acc.cs = cs → acc.scalar = scalar → acc.date = ds.map some →
+      acc.ref = some r → anyNone acc.time = false → (xs = [] → acc.time = relDates acc.date r) →
+      List.Pairwise (· < ·) (ds ++ xs.map (·.2.1)) →
+      ∃ s, List.foldlM (fun a o => a.append o none) acc (xs.map (datedG cs scalar)) = .ok s ∧ s.cs = cs ∧
+        s.scalar = scalar ∧ s.ref = some r ∧ s.slabs = acc.slabs ++ xs.map (·.1) ∧
+        s.date = (ds ++ xs.map (·.2.1)).map some ∧ s.time = relDates s.date r ∧ (xs ≠ [] → s.series = true) := by
+  induction xs with
+  | nil =>
+    intro acc ds r h1 h2 h3 h4 _ h5 _
+    exact ⟨acc, rfl, h1, h2, h4, by simp, by simp [h3], h5 rfl, by simp⟩
+  | cons x xs ih =>
+    intro acc ds r h1 h2 h3 h4 ht _ hp
+    have ha := append_dates acc (datedG cs scalar x) (by simp [datedG, h1]) (by simp [datedG, h2])
+      (by rw [h3]; exact anyNone_map_some ds) (by simp [datedG, anyNone])
+      ht (by simp [datedG, anyNone]) r h4
+      (by
+        intro a b hl hh
+        simp only [datedG, List.head?_cons, Option.some.injEq] at hh
+        subst hh
+        rw [h3, List.getLast?_map] at hl
+        cases hg : ds.getLast? with
+        | none => rw [hg] at hl; simp at hl
+        | some a' =>
+          rw [hg] at hl; simp at hl; subst hl
+          have hm : a' ∈ ds := List.mem_of_getLast? hg
+          rw [List.pairwise_append] at hp
+          exact hp.2.2 a' hm x.2.1 (by simp))
+    obtain ⟨s, hs, c1, c2, c3, c4, c5, c6, c7⟩ := ih (appended acc (datedG cs scalar x) (relDates (acc.date ++ (datedG cs scalar x).date) r))
+      (ds ++ [x.2.1]) r (by simp [appended, h1]) (by simp [appended, h2]) (by simp [appended, datedG, h3])
+      (by simp [appended, h4])
+      (by simp only [appended, datedG, h3]
+          have : (List.map some ds ++ [some x.2.1]) = List.map some (ds ++ [x.2.1]) := by simp
+          rw [this]; exact anyNone_relDates _ r)
+      (by intro _; simp [appended]) (by simpa using hp)
+    refine ⟨s, ?_, c1, c2, c3, ?_, ?_, c6, ?_⟩
+    · rw [List.map_cons, List.foldlM_cons, ha]; exact hs
+    · rw [c4]; simp [appended, datedG]
+    · rw [c5]; simp
+    · intro _
+      by_cases hre : xs = []
+      · subst hre
+        simp only [List.map_nil, List.foldlM_nil, pure, Except.pure] at hs
+        injection hs with hs; rw [← hs]; rfl
+      · exact c7 hre
+
+/-- `stack` of ≥ 2 dated single-time images (strictly increasing dates; ARBITRARY stored relative times and ARBITRARY
+reference dates) then `time_slice(i)`: the data and the date of image `i`, and the relative time `date_i − ref_0`
+relative to the reference date of the FIRST image, which becomes the reference date of the series -/
+theorem stack_slice_datedG (cs : CS) (scalar : Bool) (x0 : Slab × Int × Rat × Int) (rest : List (Slab × Int × Rat × Int))
+    (hr : rest ≠ []) (hsorted : List.Pairwise (· < ·) ((x0 :: rest).map (·.2.1))) (i : Nat) (hi : i < (x0 :: rest).length) :
+    ∃ s, stack ((x0 :: rest).map (datedG cs scalar)) = .ok s ∧
+      s.timeSlice (i : Int) = .ok ⟨cs, false, scalar, [((x0 :: rest)[i]).1],
+        [some ((((x0 :: rest)[i]).2.1 - x0.2.2.2 : Int) : Rat)], [some ((x0 :: rest)[i]).2.1], some x0.2.2.2⟩ := by
+  obtain ⟨s, hs, c1, c2, c3, c4, c5, c6, c7⟩ := stack_datesG_aux cs scalar rest (datedG cs scalar x0) [x0.2.1] x0.2.2.2
+    rfl rfl rfl rfl (by simp [datedG, anyNone]) (fun h => absurd h hr) (by simpa using hsorted)
+  refine ⟨s, by simpa [stack] using hs, ?_⟩
+  have c7' := c7 hr
+  obtain ⟨scs, sser, ssc, sslabs, stime, sdate, sref⟩ := s
+  simp only [datedG] at c1 c2 c3 c4 c5 c6 c7'
+  subst c1 c2 c3 c4 c5 c7'
+  subst c6
+  have e1 : ([x0.1] ++ rest.map (·.1)) = (x0 :: rest).map (·.1) := rfl
+  have e2 : ([x0.2.1] ++ rest.map (·.2.1)) = (x0 :: rest).map (·.2.1) := rfl
+  rw [e1, e2]
+  generalize hxs : x0 :: rest = xs at hi
+  unfold Img.timeSlice
+  simp only [Bool.not_true, Bool.false_eq_true, if_false, List.length_map]
+  rw [pyIndex_nat _ _ hi]
+  simp [listGetD, relDates, List.getElem?_map, List.getElem?_eq_getElem hi, sliceTime, hi]
+
+/-! ### programs with the composed offset made explicit -/
+theorem zipWith_add_zero_nat (off : List Nat) (n : Nat) (h : off.length = n) :
+    List.zipWith (· + ·) off (List.replicate n 0) = off := by
+  subst h
+  induction off with
+  | nil => rfl
+  | cons x l ih => simp only [List.length_cons, List.replicate_succ, List.zipWith_cons_cons, ih]; simp
+
+theorem placed_stepOff (root im im' : Img) (off st : List Nat) (hP : Placed root im off) (s : Step)
+    (h : im.step s = .ok im') (hs : im.stepStarts s = .ok st) (hne : im'.nonempty = true) :
+    Placed root im' (List.zipWith (· + ·) off st) := by
+  cases s with
+  | sub sls =>
+    simp only [Img.stepStarts] at hs; injection hs with hs; subst hs
+    exact placed_sub root im im' off hP sls h hne
+  | subVox pts =>
+    simp only [Img.step, Img.subVoxels, bind, Except.bind] at h
+    simp only [Img.stepStarts, Except.map] at hs
+    cases hb : boxSlices im.cs.shape pts with
+    | error e => rw [hb] at h; exact absurd h (by simp)
+    | ok sls =>
+      rw [hb] at h hs; simp only at h hs; injection hs with hs; subst hs
+      exact placed_sub root im im' off hP sls h hne
+  | subCoord pts =>
+    simp only [Img.step, Img.subCoords, bind, Except.bind] at h
+    simp only [Img.stepStarts, bind, Except.bind, pure, Except.pure] at hs
+    cases hv : im.cs.voxelB pts with
+    | error e => rw [hv] at h; exact absurd h (by simp)
+    | ok vox =>
+      rw [hv] at h hs; simp only at h hs
+      cases hb : boxSlices im.cs.shape vox with
+      | error e => rw [hb] at h; exact absurd h (by simp)
+      | ok sls =>
+        rw [hb] at h hs; simp only at h hs; injection hs with hs; subst hs
+        exact placed_sub root im im' off hP sls h hne
+  | tslice k =>
+    simp only [Img.stepStarts] at hs; injection hs with hs; subst hs
+    rw [zipWith_add_zero_nat off _ (by rw [hP.offLen, hP.dim])]
+    exact (placed_timeSlice root im im' off hP k h).1
+  | tinterval sl =>
+    simp only [Img.stepStarts] at hs; injection hs with hs; subst hs
+    rw [zipWith_add_zero_nat off _ (by rw [hP.offLen, hP.dim])]
+    exact placed_timeInterval root im im' off hP sl h
+
+theorem placed_runOff (root : Img) (steps : List Step) : ∀ (im im' : Img) (off off' : List Nat), Placed root im off →
+    im.runOff off steps = some (im', off') → Placed root im' off' ∧ im.runOk steps = some im' := by
+  induction steps with
+  | nil =>
+    intro im im' off off' hP h
+    simp only [Img.runOff, Option.some.injEq, Prod.mk.injEq] at h
+    obtain ⟨rfl, rfl⟩ := h; exact ⟨hP, rfl⟩
+  | cons s ss ih =>
+    intro im im' off off' hP h
+    unfold Img.runOff at h
+    split at h
+    · next im1 st h1 h2 =>
+      split at h
+      · next hne =>
+        obtain ⟨a, b⟩ := ih im1 im' _ off' (placed_stepOff root im im1 off st hP s h1 h2 hne) h
+        refine ⟨a, ?_⟩
+        unfold Img.runOk; rw [h1]; simp only [hne, if_true]; exact b
+      · exact absurd h (by simp)
+    · exact absurd h (by simp)
 
 end Darsia.Im
